@@ -166,6 +166,11 @@ def prop(ctx, case):
             what = kinds if applied else "+".join(k for k, v in case["submit"].items() if v) or "none"
             if classes:
                 what += "+class-variant"
+            marked = {c for _, c in rs1.marks}
+            if case["submit"]["generate"] and marked and (bpl.reachable(bp, bpl.effective_args(bp), [i]) & marked):
+                # known shape: a task returning one of its own parameters (dep(self.cfg)); writing the
+                # parameter file caches that parameter's identifier before the output mark is set
+                what = "generate-mode:output-is-own-parameter"
             ctx.violation(
                 f"changed:{what}",
                 f"node {i} ({bp['nodes'][i]['cls']}): identifier {id1[i]} became {id2[i]} after neutral edits {applied}, "
